@@ -12,7 +12,7 @@ Oracle : documented semantics (computation "Stages" 1/24, programming/simulation
          automatically", mj_resetData, mjtWarning, option/flag autoreset, mju_isBad "nan or abs(x) > mjMAXVAL"):
          * autoreset on: qpos/qvel/act/time finite after the step; a bad pre-step qpos (else qvel) => BADQPOS (BADQVEL)
            counter >= 1 with lastinfo = first bad index, and the data is bit-identical to a freshly reset mjData stepped
-           once; BADQACC => same reference; nan/inf/1e300 applied force on a movable dof => BADQACC; no bad pos/vel => no
+           once; BADQACC => same reference; nan/inf applied force on a movable dof => BADQACC; no bad pos/vel => no
            BADQPOS/BADQVEL; bad ctrl on an unclamped actuator => BADCTRL and the step is bit-identical to the same step
            with ctrl = 0, without reset.
          * autoreset off: counters increase, never decrease, time keeps running (no reset).
@@ -41,7 +41,7 @@ def main(ck):
       'non-finite: act is not in the statement\'s injection list; qpos/qvel/time finiteness is asserted regardless',
       'nan ctrl on a clamped actuator: either clamped or flagged (mju_clip of nan is unspecified); only unclamped bad '
       'ctrl must raise BADCTRL', 'sleeping disabled (mj_checkVel documents that it skips sleeping dofs)',
-      '+-2*mjMAXVAL / 0.5*mjMAXVAL forces need not produce a bad acceleration; only nan/inf/1e300 forces must']
+      '+-2*mjMAXVAL / 0.5*mjMAXVAL forces need not produce a bad acceleration; only non-finite forces must (a finite 1e300 force can be cancelled by an equal constraint force)']
   q = ck.quick
   jobs_rel, jobs_asan = [], []
   n_rel, n_asan = ck.budget(1200, 40000), ck.budget(60, 3000)
